@@ -248,7 +248,7 @@ var name = rapid.OneOf(
 
 var (
 	arpaLab = rapid.OneOf(
-		rapid.SampledFrom([]string{"0", "1", "9", "10", "99", "100", "199", "200", "255", "256", "999", "00", "01", "000", "001", "010", "0255", "a", "f", "F", "A", "g", "G", "aa", "1a", "a1", "0a", "x", "xy", "-", "", "+1", "-1", "１", "İ", "é", "1 ", "_1", "0x1", "1e1", "٣"}),
+		rapid.SampledFrom([]string{"0", "1", "9", "10", "99", "100", "199", "200", "255", "256", "999", "00", "01", "000", "001", "010", "0255", "a", "f", "F", "A", "g", "G", "aa", "1a", "a1", "0a", "x", "xy", "-", "", "+1", "-1", "１", "İ", "é", "1 ", "_1", "0x1", "1e1", "٣", "1_0", "2_5", "1_2_7", "2_5_5", "0_1", "1__0", "0b1", "0o7", "0X1", "1_"}),
 		rapid.StringMatching(`[0-9a-fA-F]`),
 		rapid.StringMatching(`[0-9]{1,3}`),
 		rapid.StringMatching(`[1-9][0-9]{0,2}`),
@@ -377,7 +377,7 @@ var arpaBase = rapid.Custom(func(t *rapid.T) string {
 
 var (
 	v4Field = rapid.OneOf(
-		rapid.SampledFrom([]string{"0", "1", "9", "10", "99", "100", "127", "199", "200", "249", "250", "254", "255", "256", "260", "300", "999", "00", "01", "001", "000", "0255", "", "1000", "+1", "-1", "0x1", "1e0", "１", "a", " 1"}),
+		rapid.SampledFrom([]string{"0", "1", "9", "10", "99", "100", "127", "199", "200", "249", "250", "254", "255", "256", "260", "300", "999", "00", "01", "001", "000", "0255", "", "1000", "+1", "-1", "0x1", "1e0", "１", "a", " 1", "1_0", "2_5_5", "0b1", "0o7", "4294967296", "18446744073709551616"}),
 		rapid.Map(rapid.IntRange(0, 255), itoa),
 	)
 	v6Field = rapid.OneOf(
